@@ -7,9 +7,12 @@ import time
 from lib import common
 from llsym import codec, core
 from checks import codec_common as cc
+from checks import py_common
 
 
 def _work(a):
+    if a[0] == "py":
+        return py_common.work((a[1], a[2], _TIER[0]))
     ti, on = a
     t = _TYPES[ti]
     out = []
@@ -33,18 +36,25 @@ def _work(a):
 
 
 _TYPES = []
+_TIER = ["quick"]
 
 
 def main(tier: str) -> int:
     rep = common.Report("C01", tier, "other")
+    _TIER[0] = tier
     optnames = ["default", "little+asserts", "cpp14"] if tier == "quick" else list(cc.OPTSETS)
     with common.scratch("nvc01_") as d:
         types, feats = cc.prepare(tier, d, optnames)
         _TYPES[:] = types
         tasks = [(i, on) for on in optnames for i in range(len(types))]
+        py_common.generate(d, d / "dsdl" / "vt")
+        py_common.TYPES[:] = types
+        tasks += [("py", "ser", i) for i in range(len(types))]
         for res in common.pmap(_work, tasks):
             for ti, on, what, lg, tu, wall in res:
-                cc.record(rep, types[ti], on, what, lg, tu, wall)
+                cc.record(rep, types[ti], on, what, lg, tu, wall, replayer=py_common.replayer(types[ti]) if on == "py" else None)
+        optnames = optnames + ["py"]
+        py_common.cosim(rep, types)
         rep.functions = ["<T>_serialize_ of every corpus type with everything it calls (nunavutSetUxx, nunavutSetIxx, nunavutSetF16/32/64, "
                          "nunavutSetBit, nunavutCopyBits, nunavutFloat16Pack, nested <T>_serialize_)"]
         rep.bounds = dict(types=len(types), corpus="one small type per template feature (llsym/corpus.py)" + ("" if tier == "quick" else " + 24 seeded random types"),
@@ -55,7 +65,11 @@ def main(tier: str) -> int:
                        "clang 14 -O1 IR of x86-64 is the code that is executed symbolically; pydsdl 1.x describes the types",
                        "float16: the relation asserted is C14's (faithful rounding, saturation to +-65504 for saturated fields), not RNE"]
     rep.not_covered = ["C++: types with bit arrays (std::bitset / std::vector<bool>); C++17 std::variant and pmr/cetl flavours only in the thorough tier",
-                       "Python target (E4 executor not landed)", "types not in the corpus"]
+                       "Python: scalar values outside the DSDL range (the generated setters reject them) and NaN payloads; numpy >= 2 scalar-promotion errors "
+                       "(the repository declares numpy ~= 1.24 for generated code)", "types not in the corpus"]
+    rep.functions.append("Python target: <T>._serialize_ of every corpus type and the generated nunavut_support.Serializer (add_aligned_*/add_unaligned_*, "
+                         "fork_bytes, pad_to_alignment, _unsigned_to_bytes, _float_to_bytes) executed by pysym under a numpy stand-in")
+    rep.assumptions += py_common.ASSUMPTIONS
     rep.extra["explanation"] = ("llsym symbolic execution of each generated serializer; per path and per value shape compatible with the path one z3 "
                                 "query: NOT(rc/size/bytes match the reference model of DSDL serialization) must be unsat; invalid values must be rejected")
     rep.extra["trusted_base"] = ["clang 14", "z3 5.1", "llsym interpreter", "llsym/dsdlspec.py reference model", "pydsdl"]
